@@ -418,7 +418,14 @@ package scheduler
 // contract (no stop request, no timeout configured, non-repeating step).
 //@ pred w_scope(sc *Scheduler, node *Node) = !node.data.Step.RepeatPolicy.Repeat && sc.timeout == 0 && sc.canceled != 1 && !sc.dry
 //@
+// What the other goroutines may do while a worker runs: raise the stop flag, set the run's last error, and a signaller
+// may mark this worker's step canceled while it is running; nobody else touches the step.
+//@ pred worker_rely(sc *Scheduler, node *Node) twostate uses=Node.data.State.Status,Scheduler.canceled,Scheduler.lastError =
+//@      (old(sc.canceled) == 1 ==> sc.canceled == 1) && (old(sc.lastError) != nil ==> sc.lastError != nil) &&
+//@      (node.data.State.Status == old(node.data.State.Status) ||
+//@       (old(node.data.State.Status) == NodeStatusRunning && node.data.State.Status == NodeStatusCancel))
 //@ fn (*Scheduler).Schedule$1(node)
+//@   interference worker_rely
 //@   props C01 C02 C03 C12
 //@   requires [flipped_before_spawn] node.data.State.Status != NodeStatusNone
 //@   requires sc != nil
@@ -446,16 +453,17 @@ package scheduler
 //@        (node.data.State.Status == NodeStatusNone || (node.data.State.Status == NodeStatusError && sc.lastError != nil))
 //@   ensures [C02 failed_step_labelled_failed] old(w_scope(sc, node)) && old(node.data.State.Status) == NodeStatusRunning &&
 //@        nexec[node] == old(nexec[node]) + 1 && execfail[node] ==>
-//@        (node.data.State.Status == NodeStatusError || node.data.State.Status == NodeStatusNone)
+//@        (node.data.State.Status == NodeStatusError || node.data.State.Status == NodeStatusNone || node.data.State.Status == NodeStatusCancel ||
+//@         (sc.canceled == 1 && sc.lastError != nil))
 //@   ensures [C02 failed_step_sets_run_error] old(w_scope(sc, node)) && old(node.data.State.Status) == NodeStatusRunning &&
 //@        node.data.State.Status == NodeStatusError ==> sc.lastError != nil
 //@   ensures [C02 clean_step_labelled_finished] old(w_scope(sc, node)) && old(node.data.State.Status) == NodeStatusRunning &&
 //@        nexec[node] == old(nexec[node]) + 1 && !execfail[node] ==>
-//@        (node.data.State.Status == NodeStatusSuccess || (node.data.State.Status == NodeStatusError && sc.lastError != nil))
-//@   ensures [C02 setup_failure_labelled_failed] old(w_scope(sc, node)) && nexec == old(nexec) && old(node.data.State.Status) == NodeStatusRunning ==>
+//@        (node.data.State.Status == NodeStatusSuccess || node.data.State.Status == NodeStatusCancel || (node.data.State.Status == NodeStatusError && sc.lastError != nil))
+//@   ensures [C02 setup_failure_labelled_failed] old(w_scope(sc, node)) && nexec == old(nexec) && old(node.data.State.Status) == NodeStatusRunning && sc.canceled != 1 ==>
 //@        (node.data.State.Status == NodeStatusError && sc.lastError != nil)
 //@   ensures [C12 torn_down_after_last_execution] old(!sc.dry) ==> !dirty[node]
-//@   loop 0 invariant sc == old(sc) && node == old(node) && w_scope(sc, node) == old(w_scope(sc, node)) && sc.dry == old(sc.dry)
+//@   loop 0 invariant sc == old(sc) && node == old(node) && sc.dry == old(sc.dry) && sc.timeout == old(sc.timeout) && (old(sc.canceled) == 1 ==> sc.canceled == 1)
 //@   loop 0 invariant old(!sc.dry) ==> nsetup == upd(old(nsetup), node, old(nsetup[node]) + 1)
 //@   loop 0 invariant [stopped_before_start] old(sc.canceled) == 1 ==> (sc.canceled == 1 && nexec == old(nexec) && eff.exec == old(eff.exec))
 //@   loop 0 invariant [armed_while_dirty] old(!sc.dry) ==> (dirty[node] ==> !node.done)
@@ -463,7 +471,8 @@ package scheduler
 //@   loop 0 invariant [a] old(w_scope(sc, node)) ==> nexec == old(nexec)
 //@   loop 0 invariant [b] old(w_scope(sc, node)) ==> node.data.State.RetryCount == old(node.data.State.RetryCount)
 //@   loop 0 invariant [c] old(w_scope(sc, node)) ==> node.data.Step.RetryPolicy == old(node.data.Step.RetryPolicy)
-//@   loop 0 invariant [d] old(w_scope(sc, node)) ==> (setupSucceed ==> node.data.State.Status == old(node.data.State.Status))
+//@   loop 0 invariant [d] old(w_scope(sc, node)) ==> (setupSucceed ==> (node.data.State.Status == old(node.data.State.Status) ||
+//@        (old(node.data.State.Status) == NodeStatusRunning && node.data.State.Status == NodeStatusCancel)))
 //@   loop 0 invariant [e] old(w_scope(sc, node)) ==> (!setupSucceed ==> node.data.State.Status == NodeStatusError && sc.lastError != nil)
 
 // What the other goroutines (workers, signallers) may do between two actions of the scheduling loop: register a stop,
@@ -637,7 +646,10 @@ package scheduler
 //@   loop 0 invariant nextNodeID > 0 && obs.cycle_calls == old(obs.cycle_calls)
 //@   loop 0 invariant len(graph.nodes) == idx + 1 && nodes_wf(graph) && dict_wf(graph) && ids_wf(graph)
 //@   loop 0 invariant forall k int :: has(graph.dict, k) ==> (0 < k && k < nextNodeID)
-//@   loop 0 invariant forall k int :: has(graph.dict, k) ==> (exists i int :: 0 <= i && i <= idx && graph.nodes[i] == graph.dict[k])
+//@   loop 0 invariant [ids_are_consecutive] nextNodeID == old(nextNodeID) + idx + 1 &&
+//@        (forall i int :: 0 <= i && i <= idx ==> graph.nodes[i].id == old(nextNodeID) + i)
+//@   loop 0 invariant [every_key_is_a_listed_node] forall k int :: has(graph.dict, k) ==>
+//@        (old(nextNodeID) <= k && k < nextNodeID && graph.nodes[k - old(nextNodeID)] == graph.dict[k])
 //@   loop 0 invariant forall k int :: !has(graph.to, k) && !has(graph.from, k)
 //@   loop 0 invariant forall i int :: 0 <= i && i <= idx ==>
 //@        (graph.nodes[i].data.Step.Name == old(steps[i].Name) && graph.nodes[i].data.Step.Depends == old(steps[i].Depends) &&
@@ -725,7 +737,7 @@ package scheduler
 
 //@ pred retry_graph_wf(g *ExecutionGraph) = nodes_wf(g) && dict_wf(g) && ids_wf(g) && graph_wf(g) &&
 //@      (forall i int :: 0 <= i && i < len(g.nodes) ==> (has(g.dict, g.nodes[i].id) && g.dict[g.nodes[i].id] == g.nodes[i])) &&
-//@      (forall k int :: has(g.dict, k) ==> (exists i int :: 0 <= i && i < len(g.nodes) && g.nodes[i] == g.dict[k])) &&
+//@      (forall k int :: has(g.dict, k) ==> (len(g.nodes) > 0 && 0 <= k - g.nodes[0].id && k - g.nodes[0].id < len(g.nodes) && g.nodes[k - g.nodes[0].id] == g.dict[k])) &&
 //@      (forall k int, j int :: 0 <= j && j < len(g.from[k]) ==> has(g.dict, g.from[k][j]))
 //@ pred recorded(g *ExecutionGraph, dict map[int]NodeStatus) = forall k int :: has(g.dict, k) ==> dict[k] == old(g.dict[k].data.State.Status)
 
@@ -841,7 +853,10 @@ package scheduler
 //@   loop 0 invariant nextNodeID > 0
 //@   loop 0 invariant len(graph.nodes) == idx + 1 && nodes_wf(graph) && dict_wf(graph) && ids_wf(graph)
 //@   loop 0 invariant forall k int :: has(graph.dict, k) ==> (0 < k && k < nextNodeID)
-//@   loop 0 invariant forall k int :: has(graph.dict, k) ==> (exists i int :: 0 <= i && i <= idx && graph.nodes[i] == graph.dict[k])
+//@   loop 0 invariant [ids_are_consecutive] nextNodeID == old(nextNodeID) + idx + 1 &&
+//@        (forall i int :: 0 <= i && i <= idx ==> graph.nodes[i].id == old(nextNodeID) + i)
+//@   loop 0 invariant [every_key_is_a_listed_node] forall k int :: has(graph.dict, k) ==>
+//@        (old(nextNodeID) <= k && k < nextNodeID && graph.nodes[k - old(nextNodeID)] == graph.dict[k])
 //@   loop 0 invariant forall k int :: !has(graph.to, k) && !has(graph.from, k)
 //@   loop 0 invariant forall i int :: 0 <= i && i <= idx ==>
 //@        (graph.nodes[i] == nodes[i] && has(graph.dict, nodes[i].id) && graph.dict[nodes[i].id] == nodes[i])
